@@ -258,8 +258,32 @@ def run(cx):
                         okc = bool(stores) and all(isinstance(Locals(bfn).resolve(s.value), ast.Call) and call_name(Locals(bfn).resolve(s.value)) == ctor for s in stores)
                         r.check(okc, f"{q}/{var}[{key}]-copied", (pm, stores[0] if stores else c), f"child scope `{var}` does not take a fresh {ctor}() copy of `{key}`: assignments inside the block would leak into (or be leaked into by) the enclosing scope", sample=f"{q}: {var}[{key}] = {ctor}(...)")
 
-    # ---- C03-GLOBAL-INIT ---------------------------------------------------------------------
-    r = cx.rule("C03-GLOBAL-INIT", "a global initialiser is baked into the declaration only when the right-hand side is a constant AND mentions no names; otherwise the declaration gets the type's default and the value is assigned at its source position", floor=4)
+    rule_global_init(cx, "C03-GLOBAL-INIT")
+
+    ha = pm.func("_handle_assignment_ast")
+    loc = Locals(ha)
+    # ---- C03-LIST-SIZE -----------------------------------------------------------------------
+    r = cx.rule("C03-LIST-SIZE", "re-assigning a declared list with a statically different length is rejected (the tracked length feeds folded len())", floor=1)
+    found = False
+    for n in walk_local(ha):
+        if isinstance(n, ast.If) and any(isinstance(x, ast.Raise) for x in n.body):
+            t = norm(n.test)
+            if "!=" in t and "expected" in t and "new_length" in t:
+                ex = loc.defs.get("expected", [])
+                nl = loc.defs.get("new_length", [])
+                if any("'length'" in norm(d) for d in ex if isinstance(d, ast.expr)) and any("len(value_obj)" in norm(d) or "list_length_from_ast" in norm(d) for d in nl if isinstance(d, ast.expr)):
+                    found = any(isinstance(a, ast.If) and "is_declared" in norm(a.test) and "_is_list_type" in norm(a.test) for a in pm.ancestors(n))
+    r.check(found, "_handle_assignment_ast/list-size-mismatch-rejected", (pm, ha), "the size-mismatch rejection for re-assigned lists is gone: the statically tracked length (used to fold len()) can become stale")
+
+
+def m_enclosing(pm, node):
+    return pm.enclosing_func(node)
+
+
+def rule_global_init(cx, rid):
+    pm = mod(PARSER)
+    cx.consulted(pm)
+    r = cx.rule(rid, "a global initialiser is baked into the declaration only when the right-hand side is a constant AND mentions no names; otherwise the declaration gets the type's default and the value is assigned at its source position", floor=4)
     ha = pm.func("_handle_assignment_ast")
     tr = CondTrace(lambda s: isinstance(s, ast.Assign) and isinstance(s.targets[0], ast.Name) and s.targets[0].id == "decl",
                    marks=lambda s: {"DEFAULTED"} if isinstance(s, ast.Assign) and isinstance(s.targets[0], ast.Name) and s.targets[0].id == "init_expr" and "_default_value_for_type" in norm(s.value) else set())
@@ -287,19 +311,3 @@ def run(cx):
     r.check(set(safe) <= {"len", "abs", "max", "min", "int", "float", "bool", "str"}, "_SAFE_NAME_REFERENCES/builtins-only", (pm.rel, pm.const("_SAFE_NAME_REFERENCES").lineno), f"names treated as 'not a name': {sorted(safe)}")
     r.check("node.id not in _SAFE_NAME_REFERENCES" in norm(ehn) and "any((_expr_has_name(child) for child in ast.iter_child_nodes(node)))" in norm(ehn), "_expr_has_name/recursive-over-all-children", (pm, ehn), "_expr_has_name must report any Name outside the safe builtins anywhere in the tree")
 
-    # ---- C03-LIST-SIZE -----------------------------------------------------------------------
-    r = cx.rule("C03-LIST-SIZE", "re-assigning a declared list with a statically different length is rejected (the tracked length feeds folded len())", floor=1)
-    found = False
-    for n in walk_local(ha):
-        if isinstance(n, ast.If) and any(isinstance(x, ast.Raise) for x in n.body):
-            t = norm(n.test)
-            if "!=" in t and "expected" in t and "new_length" in t:
-                ex = loc.defs.get("expected", [])
-                nl = loc.defs.get("new_length", [])
-                if any("'length'" in norm(d) for d in ex if isinstance(d, ast.expr)) and any("len(value_obj)" in norm(d) or "list_length_from_ast" in norm(d) for d in nl if isinstance(d, ast.expr)):
-                    found = any(isinstance(a, ast.If) and "is_declared" in norm(a.test) and "_is_list_type" in norm(a.test) for a in pm.ancestors(n))
-    r.check(found, "_handle_assignment_ast/list-size-mismatch-rejected", (pm, ha), "the size-mismatch rejection for re-assigned lists is gone: the statically tracked length (used to fold len()) can become stale")
-
-
-def m_enclosing(pm, node):
-    return pm.enclosing_func(node)
